@@ -1,5 +1,6 @@
 import MgModel.Common.Driver
 import MgModel.C12.Ciphers
+import MgModel.C12.Parity
 open MgModel MgModel.C12 MgModel.Driver
 
 /-!
@@ -11,6 +12,8 @@ Line protocol (harness/c12/seq_crypt.c speaks the same):
                                         session                          -> ok <hexout> | err <e>
     dump                                                                 -> <hexiv> <off> <hexsb>
     null <fn> <param>                   call with that pointer NULL      -> err <e>
+    parity <b>                          b = 0..255: set_odd set_even check_odd check_even
+                                        (crypt/parity.c)                 -> ok <so> <se> <co> <ce>
 
 A *session* starts at `state`; while it started at offset 0 and every call succeeded the
 driver also prints the specification's answer (SP 800-38A over the FIPS block functions,
@@ -129,6 +132,14 @@ def stepLine (st : St) : List String → St × String
       | .error .nullDeref => (st, errName .nullDeref ++ " | err null")
       | .error e => (st, errName e ++ " | " ++ errName e)
     | _, _, _ => (st, "bad-op")
+  | ["parity", b] =>
+    match b.toNat? with
+    | some v =>
+      if v > 255 then (st, "bad-op") else
+      match Parity.setOdd v, Parity.setEven v, Parity.checkOdd v, Parity.checkEven v with
+      | some so, some se, some co, some ce => (st, s!"ok {so} {se} {co} {ce}")
+      | _, _, _, _ => (st, errName .oob)
+    | none => (st, "bad-op")
   | _ => (st, "bad-op")
 
 def main : IO Unit := MgModel.Driver.main ({} : St) stepLine
